@@ -709,7 +709,7 @@ def build_macro_project(cases, negatives):
     with open(os.path.join(MACRO_DIR, 'Cargo.toml'), 'w') as f:
         f.write('[package]\nname = "ptrmacro"\nversion = "0.0.0"\nedition = "2021"\npublish = false\n\n[workspace]\n\n[dependencies]\n'
                 'serde_json = { path = "%s" }\n\n[profile.dev]\nopt-level = 0\ndebug = false\n' % engine.REPO)
-    shutil.copy(os.path.join(engine.REPO, 'Cargo.lock'), os.path.join(MACRO_DIR, 'Cargo.lock'))
+    shutil.copy(os.path.join(engine.REPO if os.path.exists(os.path.join(engine.REPO, 'Cargo.lock')) else '/repo', 'Cargo.lock'), os.path.join(MACRO_DIR, 'Cargo.lock'))
     for fn in os.listdir(os.path.join(MACRO_DIR, 'src', 'bin')):
         os.remove(os.path.join(MACRO_DIR, 'src', 'bin', fn))
     src = ['#![recursion_limit = "1024"]\n#![allow(warnings)]\n#[path = "%s"] mod canon;\nuse serde_json::{json, Value};\n'
